@@ -905,6 +905,11 @@ def explore(body, mode="int", W=None, logic=None, maxpaths=20000, index_limit=64
         except PathDone:
             continue
         except Exception as e:  # real code raised on this path
+            if isinstance(e, TypeError) and "__hash__ method should return an integer" in str(e):
+                # an expression whose *size* became symbolic was hashed (exp.__hash__ adds the
+                # size to the text hash): the engine cannot follow, the path proves nothing
+                Ctx.cur = None
+                raise OutOfReach("expression with a symbolic size was hashed")
             r.exc = e
         finally:
             Ctx.cur = None
